@@ -32,6 +32,7 @@ type seg struct {
 	data []byte
 	eof  bool
 	err  error
+	once bool // the error is returned by one Read only (a temporary error), the stream continues after it
 }
 
 // WriteRec describes one Write call made by the client.
@@ -69,8 +70,9 @@ type MemConn struct {
 	blockedW   int32         // number of writers currently blocked (atomic)
 	writeCalls int
 
-	readDeadline time.Time // honoured like a socket does (a correct client never sets one)
-	dlChanged    chan struct{}
+	readDeadline  time.Time // honoured like a socket does (a correct client never sets one)
+	writeDeadline time.Time // likewise: a Write that starts or is still blocked at or after it fails
+	dlChanged     chan struct{}
 
 	resetErr error // set by ResetByPeer: every blocked and future Write fails
 
@@ -115,6 +117,9 @@ func (c *MemConn) Read(p []byte) (int, error) {
 			}
 			if s.err != nil {
 				err := s.err
+				if s.once {
+					c.inq = c.inq[1:]
+				}
 				c.mu.Unlock()
 				return 0, err
 			}
@@ -174,16 +179,36 @@ func (c *MemConn) Write(p []byte) (int, error) {
 			c.mu.Unlock()
 			return 0, err
 		}
+		wdl := c.writeDeadline
+		if !wdl.IsZero() && !time.Now().Before(wdl) {
+			c.mu.Unlock()
+			return 0, os.ErrDeadlineExceeded
+		}
 		if c.stalled && c.credits == 0 {
 			g := c.gate
 			c.mu.Unlock()
 			atomic.AddInt32(&c.blockedW, 1)
+			var tc <-chan time.Time
+			var tm *time.Timer
+			if !wdl.IsZero() {
+				tm = time.NewTimer(time.Until(wdl))
+				tc = tm.C
+			}
 			select {
 			case <-g:
 				atomic.AddInt32(&c.blockedW, -1)
+				if tm != nil {
+					tm.Stop()
+				}
 				continue
+			case <-tc:
+				atomic.AddInt32(&c.blockedW, -1)
+				return 0, os.ErrDeadlineExceeded
 			case <-c.closed:
 				atomic.AddInt32(&c.blockedW, -1)
+				if tm != nil {
+					tm.Stop()
+				}
 				return 0, ErrClosed
 			}
 		}
@@ -258,10 +283,30 @@ type memAddr string
 func (a memAddr) Network() string { return "verifmem" }
 func (a memAddr) String() string  { return string(a) }
 
-func (c *MemConn) LocalAddr() net.Addr                { return memAddr("local") }
-func (c *MemConn) RemoteAddr() net.Addr               { return memAddr(c.Addr) }
-func (c *MemConn) SetDeadline(t time.Time) error      { return c.SetReadDeadline(t) }
-func (c *MemConn) SetWriteDeadline(t time.Time) error { return nil }
+func (c *MemConn) LocalAddr() net.Addr           { return memAddr("local") }
+func (c *MemConn) RemoteAddr() net.Addr          { return memAddr(c.Addr) }
+func (c *MemConn) SetDeadline(t time.Time) error { return c.SetReadDeadline(t) }
+
+// SetWriteDeadline makes a Write that begins at or after t, or is still blocked then, fail with
+// os.ErrDeadlineExceeded (zero = never).
+func (c *MemConn) SetWriteDeadline(t time.Time) error {
+	c.mu.Lock()
+	c.writeDeadline = t
+	c.mu.Unlock()
+	return nil
+}
+
+// TempErr is a transient read error (net.Error with Temporary() true): what EAGAIN/EINTR-style conditions or a
+// proxy layer may hand a client in the middle of a stream that then simply continues.
+type TempErr struct{}
+
+func (TempErr) Error() string   { return "verif: temporary read error (injected)" }
+func (TempErr) Timeout() bool   { return false }
+func (TempErr) Temporary() bool { return true }
+
+// SendTempErr makes one Read of the client (after pending data) fail with a temporary error; the bytes sent
+// afterwards are delivered by later Reads.
+func (c *MemConn) SendTempErr() { c.push(seg{err: TempErr{}, once: true}) }
 
 // SetReadDeadline makes a blocked or future Read fail with os.ErrDeadlineExceeded at t (zero = never).
 func (c *MemConn) SetReadDeadline(t time.Time) error {
